@@ -57,6 +57,25 @@ SPECIAL_FAMILIES = {
                                   screening=True, k=2),
 }
 SPECIAL_THREADS_QUICK = [1, 3, 8, 16]
+# (max_edge_length 0.5: the refinement loop of the mesh generator runs several rounds and ends at different triangle areas for
+# the strip with and without hole — with coarser targets it ends in its first round for both)
+# 'what the process did before': the same simulation X alone, and after DIFFERENT work in the same process
+# (other geometries with the same bounding box and mesh targets meshed first; another simulation with other options on the same
+# mesh object through the device itself / a Device.copy(); X run on the Solution.device of that earlier run)
+_PSI0 = dict(terminal_psi=0.0, screening=True, adaptive=False, solve_time=3 * DT - DT / 2, current=1.0)
+_PSIN = dict(terminal_psi=None, screening=False, adaptive=False, solve_time=5 * DT - DT / 2, current=3.0, field=0.1)
+HISTORY_FAMILIES = {
+    "history/hole, terminal_psi=None": dict(
+        dev="barhole", mel=0.5, current=4.0, field=0.5, adaptive=True, dt=DT, dt_max=0.05, solve_time=0.3, k=3, terminal_psi=None,
+        variants=[[], [dict(kind="mesh", dev="bar"), dict(kind="mesh", dev="tee")],
+                  [dict(kind="sim", on="copy", over=_PSI0)],
+                  [dict(kind="mesh", dev="bar"), dict(kind="sim", on="device", over=_PSI0, then="solution.device")]]),
+    "history/bar, terminal_psi=0, screening": dict(
+        dev="bar", mel=0.5, current=2.0, field=0.5, adaptive=False, dt=DT, solve_time=5 * DT - DT / 2, screening=True, k=2,
+        variants=[[], [dict(kind="sim", on="device", over=_PSIN)],
+                  [dict(kind="mesh", dev="barhole"), dict(kind="mesh", dev="cross")],
+                  [dict(kind="sim", on="copy", over=_PSIN, then="solution.device")]]),
+}
 THOROUGH_FAMILIES = {
     "screening/adaptive/ramp": dict(dev="barhole", current=3.0, current_ramp=0.1, field=0.6, field_ramp=0.2, adaptive=True, dt=DT, dt_max=0.03,
                                     solve_time=0.3, screening=True, k=3),
@@ -206,6 +225,12 @@ def child(args):
 
     a = args["physics"]
     obs = {}
+    prework = args.get("prework") or []
+    for st in prework:                                    # other geometries meshed first in this process
+        if st["kind"] == "mesh":
+            devices._CACHE.clear()
+            twin.build_device(tdgl, dict(a, dev=st["dev"]))
+            devices._CACHE.clear()
     dev = twin.build_device(tdgl, a)                      # meshed in THIS process
     obs.update(_mesh_obs(dev.mesh, "mesh/fresh"))
     devices._CACHE.clear()
@@ -216,6 +241,16 @@ def child(args):
         extra = _seed_reuse(tdgl, a, dev, work, obs)
         return {"obs": obs, "extra_runs": extra, "draws": draws, "threads": numba.config.NUMBA_NUM_THREADS, "hashseed": os.environ.get("PYTHONHASHSEED"),
                 "nframes": len([k for k in obs if k.endswith("/psi") and k.startswith("file/data/")])}
+    dev_for_x = dev
+    for n, st in enumerate(prework):                      # another simulation on the same mesh object, with other options
+        if st["kind"] == "sim":
+            b = dict(a, **st["over"])
+            target = dev.copy() if st.get("on") == "copy" else dev
+            assert target.mesh is dev.mesh or st.get("on") != "copy" or np.array_equal(target.mesh.sites, dev.mesh.sites)
+            earlier = tdgl.solve(target, twin.options(tdgl, b, os.path.join(work, f"earlier{n}.h5")), **twin.drive(tdgl, b))
+            if st.get("then") == "solution.device":
+                dev_for_x = earlier.device
+    dev = dev_for_x
     kw = twin.drive(tdgl, a)
     if a.get("pulse"):
         kw["terminal_currents"] = _pulse(a["pulse"])
@@ -392,6 +427,7 @@ def _dynamic_part(ctx, orders, deferred):
     fams = dict(FAMILIES)
     fams.update(CROSS_FAMILIES)
     fams.update(SPECIAL_FAMILIES)
+    fams.update({k: {kk: vv for kk, vv in v.items() if kk != "variants"} for k, v in HISTORY_FAMILIES.items()})
     hit, miss = _draw_seeds(SPECIAL_FAMILIES["pulse/draws-hit-or-miss"])
     if not ctx.quick:
         fams.update(THOROUGH_FAMILIES)
@@ -403,7 +439,7 @@ def _dynamic_part(ctx, orders, deferred):
     jobs.append(("kernels", dict(mode="kernels", work=str(ctx.tmp / "kern"), threads=THREADS, orders={k: [list(o) for o in v] for k, v in sched.items()}), 16, 11))
     n = 0
     for fi, (label, ph) in enumerate(fams.items()):
-        few = CROSS_THREADS_QUICK if label in CROSS_FAMILIES else SPECIAL_THREADS_QUICK if label in SPECIAL_FAMILIES else None
+        few = CROSS_THREADS_QUICK if label in CROSS_FAMILIES else SPECIAL_THREADS_QUICK if (label in SPECIAL_FAMILIES or label in HISTORY_FAMILIES) else None
         for ti, T in enumerate(few if (ctx.quick and few) else THREADS):
             locs = [ti % 2] if ctx.quick else [0, 1]
             for loc in locs:
@@ -411,10 +447,13 @@ def _dynamic_part(ctx, orders, deferred):
                 outname = ["a/out.h5", "elsewhere/deep er/result file.h5"][loc]
                 a = dict(physics=ph, work=str(ctx.tmp / f"proc{n}"), outname=outname, poison=1000 + n,
                          rng_seed=(None if n % 3 == 0 else 77 + n))
+                if label in HISTORY_FAMILIES:
+                    vs = HISTORY_FAMILIES[label]["variants"]
+                    a["prework"] = vs[(ti if ctx.quick else 2 * ti + loc) % len(vs)]
                 if ph.get("pulse"):       # first child: draws that hit the pulse; second: draws that miss it; then natural / other seeds
                     a["rng_seed"] = hit if ti == 0 and loc == locs[0] else miss if ti == 1 and loc == locs[0] else (None if ti % 2 == 0 else 77 + n)
                 jobs.append((label, a, T, 100 + 7 * n))
-    with ThreadPoolExecutor(max_workers=6) as ex:
+    with ThreadPoolExecutor(max_workers=8) as ex:
         results = list(ex.map(lambda j: _spawn(j[1], j[2], j[3], timeout=(60 if ctx.violations else 300) if ctx.quick else 600), jobs))
     for j, res in zip(jobs, results):
         if "error" in res:        # deferred: the other processes are still compared
@@ -443,6 +482,10 @@ def _dynamic_part(ctx, orders, deferred):
             if j[0] != label:
                 continue
             rid = f"T{j[2]}/seed{j[3]}/{j[1]['outname'].split('/')[0]}/poison{j[1]['poison']}/draws:{j[1].get('rng_seed')}"
+            if "prework" in j[1]:
+                rid += "/before:" + ("nothing" if not j[1]["prework"] else "+".join(
+                    (f"mesh {st['dev']}" if st["kind"] == "mesh" else f"sim on {st.get('on')} psi={st['over'].get('terminal_psi')}"
+                     + (" then its Solution.device" if st.get("then") else "")) for st in j[1]["prework"]))
             for key in sorted(res["obs"]):
                 ev.append({"run": rid, "key": key, "q": [intern(res["obs"][key])]})
             for sub, o in res.get("extra_runs", {}).items():      # several observers inside one process (e.g. two continuations of one seed)
